@@ -42,6 +42,8 @@ def conic_case(draw, tier="quick"):
     what = draw(st.sampled_from(["from_points", "from_crossratio", "from_tangent", "from_foci", "from_points_complex"]))
     return {"what": what, "pts": [[draw(C.ints(6)), draw(C.ints(6))] for _ in range(5)], "line": draw(C.ivec(3, 6)), "s": [draw(C.scale()) for _ in range(5)],
             "diag": draw(st.sampled_from([0, 0, 1, 2, 3])),
+            # defining points given as arrays of a narrow integer type, coordinates multiplied up to the range of the type
+            "idt": draw(st.sampled_from([None, None, None, "int8", "uint8", "int16", "int32", "int64"])), "imul": draw(st.sampled_from([1, 3, 10, 20, 100, 150])),
             "trap": draw(st.sampled_from([None, None, None, [1, 2], [2, -1], [-1, -3], [-2, 1], [3, 3], [-1, -1]])), "tv": [draw(st.integers(-2, 2)), draw(st.integers(-2, 2))],
             "axis": draw(st.sampled_from([None, None, [1, 0, 0], [1, 0, 0], [0, 1, 0], [0, 0, 1], [1, 1, 0], [1, 0, 1], [0, 1, 1], [1, -1, 0], [-2, 0, 0]]))}
 
@@ -54,6 +56,15 @@ def run_conic(c):
         if not no_three_collinear(pts):
             raise Skip("three collinear points")
         Ps = [P(p, s) for p, s in zip(pts, sc)]
+        ipts = None
+        if c.get("idt") is not None:
+            lim = {"int8": 10, "uint8": 20, "int16": 100, "int32": 150, "int64": 150}.get(c["idt"])
+            if lim is None or not isinstance(c.get("imul"), int) or c["imul"] < 1:
+                raise Skip("malformed")
+            m = min(c["imul"], lim)
+            sh = 6 if c["idt"] == "uint8" else 0
+            ipts = [Point(np.array([(p[0] + sh) * m, (p[1] + sh) * m, 1], dtype=c["idt"])) for p in pts]
+            Ps = ipts
         con, f = call("from_points", Conic.from_points, *Ps)
         if f:
             return [f]
@@ -68,7 +79,7 @@ def run_conic(c):
         if f is None:
             ck.check(not bool(dg), "from_points:non-degenerate", pts)
         if what == "from_crossratio":
-            a, b, cc, d, e = [P(p) for p in pts]
+            a, b, cc, d, e = ipts if ipts is not None else [P(p) for p in pts]
             cr, f = call("crossratio", crossratio, a, b, cc, d, e)
             if f:
                 return ck.result() + [f]
@@ -399,7 +410,7 @@ def cone_labels(c):
 
 LAWS = [
     Law("conic_constructors", lambda tier: conic_case(tier), run_conic, lambda c: True,
-        lambda c: [c["what"]] + (["tangent:" + ",".join(str(x) for x in c["axis"])] if c["what"] == "from_tangent" and c.get("axis") is not None and not c.get("diag") else [])
+        lambda c: [c["what"]] + ([f"{c['what']}:points-of-type-{c['idt']}"] if c.get("idt") and c["what"] in ("from_points", "from_crossratio") else []) + (["tangent:" + ",".join(str(x) for x in c["axis"])] if c["what"] == "from_tangent" and c.get("axis") is not None and not c.get("diag") else [])
         + (["trapezoid-with-parallel-tangent"] if c["what"] == "from_tangent" and c.get("trap") is not None and c.get("diag") else []), {"quick": 2500, "thorough": 30000},
         "from_points / from_crossratio / from_tangent / from_foci", shard=300, mandatory=("tangent:1,0,0", "tangent:0,1,0", "trapezoid-with-parallel-tangent")),
     Law("round", lambda tier: round_case(tier), run_round, lambda c: any(c["c"]), lambda c: [c["what"]] + (["moved-by-a-similarity"] if c.get("moved") else []), {"quick": 1000, "thorough": 20000},
